@@ -22,7 +22,8 @@ import (
 // reflect.MakeFunc in several signature forms.  Unions come from a static catalogue (the embedded
 // marker needs a named struct).  Resolvers return seeded data of the Go type they declare.
 
-type Shade int32 // enum
+type Shade int32 // enum over an integer kind
+type Tone string // enum over a string kind
 
 type Stamp struct{ S string } // text marshaler (value receiver)
 
@@ -60,7 +61,7 @@ var scalarKinds = []reflect.Type{
 	reflect.TypeOf(int64(0)), reflect.TypeOf(int32(0)), reflect.TypeOf(uint8(0)), reflect.TypeOf(""), reflect.TypeOf(false),
 	reflect.TypeOf(float64(0)), reflect.TypeOf(float32(0)), reflect.TypeOf(time.Time{}), reflect.TypeOf([]byte{}),
 	reflect.TypeOf(MyStr("")), reflect.TypeOf(MyInt(0)), reflect.TypeOf(Shade(0)), reflect.TypeOf(Stamp{}),
-	reflect.TypeOf(Octet(0)), reflect.TypeOf(uint16(0)), reflect.TypeOf(int8(0)),
+	reflect.TypeOf(Octet(0)), reflect.TypeOf(uint16(0)), reflect.TypeOf(int8(0)), reflect.TypeOf(Tone("")),
 }
 
 // list shapes beyond "slice of a scalar kind": named slice types, slices of pointers, nested slices
@@ -68,7 +69,7 @@ var listKinds = []reflect.Type{
 	reflect.TypeOf(Blob{}), reflect.TypeOf(Ints{}), reflect.TypeOf(Strs{}), reflect.TypeOf([]Octet{}),
 	reflect.TypeOf(json.RawMessage{}), reflect.TypeOf(Doc{}), reflect.TypeOf(json.RawMessage{}),
 	reflect.TypeOf([]*string{}), reflect.TypeOf([]*int64{}), reflect.TypeOf([][]int64{}), reflect.TypeOf([]Blob{}),
-	reflect.TypeOf([]Shade{}), reflect.TypeOf([]Stamp{}), reflect.TypeOf([]time.Time{}), reflect.TypeOf([]bool{}),
+	reflect.TypeOf([]Shade{}), reflect.TypeOf([]Tone{}), reflect.TypeOf([]Stamp{}), reflect.TypeOf([]time.Time{}), reflect.TypeOf([]bool{}),
 }
 
 var fieldNames = []string{"Alpha", "Beta", "Gamma", "Delta", "Eps", "Zeta", "Eta", "Theta"}
@@ -84,8 +85,8 @@ type GenSchema struct {
 	// nil or left a source out: the builder must then fail the request (function.go / batch.go), which the
 	// oracle accepts as the one legitimate execution error.
 	NonNullNil int32
-	// EnumNoValue is set (at run time) when a batch resolver left out the entry of a source for an enum-typed
-	// result: the field is advertised nullable (batch results are), but an enum has no null rendering and
+	// EnumNoValue is set (at run time) when a resolver handed back an enum value outside the registered map, or
+	// a batch resolver left out the entry of a source for an enum-typed result: the field is advertised nullable (batch results are), but an enum has no null rendering and
 	// thunder fails the request with "enum is not valid" - the resolver's doing, accepted by the oracle.
 	EnumNoValue int32
 }
@@ -139,7 +140,18 @@ func (g *GenSchema) value(r *vh.Rng, t reflect.Type) reflect.Value {
 	case reflect.TypeOf(time.Time{}):
 		return reflect.ValueOf(time.Unix(int64(r.Intn(1000000)), 0).UTC())
 	case reflect.TypeOf(Shade(0)):
+		if r.Chance(3) {
+			// a value the enum was not registered with: thunder must fail the request ("enum is not valid")
+			atomic.StoreInt32(&g.EnumNoValue, 1)
+			return reflect.ValueOf(Shade(7))
+		}
 		return reflect.ValueOf(Shade(r.Intn(3)))
+	case reflect.TypeOf(Tone("")):
+		if r.Chance(3) {
+			atomic.StoreInt32(&g.EnumNoValue, 1)
+			return reflect.ValueOf(Tone(r.Pick([]string{"mauve", "warm ", "WARM"})))
+		}
+		return reflect.ValueOf(Tone(r.Pick([]string{"warm", "cold"})))
 	case reflect.TypeOf(Stamp{}):
 		return reflect.ValueOf(Stamp{S: r.Pick([]string{"a", "b"})})
 	case reflect.TypeOf(json.RawMessage{}):
@@ -213,6 +225,7 @@ func NewGenSchema(r *vh.Rng) *GenSchema {
 	g := &GenSchema{Builder: schemabuilder.NewSchema(), ArgSamples: map[string][]string{}, Shapes: map[string]int{}, rng: r}
 	s := g.Builder
 	s.Enum(Shade(0), map[string]Shade{"LIGHT": Shade(0), "MID": Shade(1), "DARK": Shade(2)})
+	s.Enum(Tone(""), map[string]Tone{"WARM": Tone("warm"), "COLD": Tone("cold")})
 
 	nObj := 1 + r.Intn(4)
 	for i := 0; i < nObj; i++ {
@@ -317,7 +330,7 @@ func shapeOf(t reflect.Type) string {
 		}
 		return "struct"
 	}
-	if t == reflect.TypeOf(Shade(0)) {
+	if t == reflect.TypeOf(Shade(0)) || t == reflect.TypeOf(Tone("")) {
 		return "enum"
 	}
 	if t.PkgPath() != "" {
@@ -474,7 +487,7 @@ func (g *GenSchema) addBatch(r *vh.Rng, o *schemabuilder.Object, owner, name str
 				if nonNullable {
 					atomic.StoreInt32(&g.NonNullNil, 1)
 				}
-				if ret == reflect.TypeOf(Shade(0)) {
+				if ret == reflect.TypeOf(Shade(0)) || ret == reflect.TypeOf(Tone("")) {
 					// an enum has no null rendering: thunder fails the request with "enum is not valid"
 					atomic.StoreInt32(&g.EnumNoValue, 1)
 				}
